@@ -16,6 +16,7 @@ import KinModel.Style
 import KinModel.Lemmas.C05Str
 import KinModel.Lemmas.C05Dec
 import KinModel.Lemmas.C05Cells
+import KinModel.Gen.StyleCells
 namespace KinModel.Style
 
 /-! ### primitive texts -/
@@ -503,5 +504,28 @@ example : (decodeStyled impl ⟨.query, .deepObject, true⟩ ['p'] false
     { query := [("p[a]".toList, [['7']]), ("p[l][1]".toList, [['2']])] }
     (.leaf (.deep [(['a'], .prim { t := .integer }), (['l'], .arr { t := .integer })] []))).val
     = .dobj [(['a'], .p (.int 7)), (['l'], .a [none, some (.int 2)])] := by decide
+
+/-! ### translator table (regenerated from openapi3/parameter.go on every run) -/
+
+/-- the extractor understood every case of the `smSupported` switch and every default clause -/
+theorem styleCells_recognised : Gen.styleCells.all Gen.CellRow.ok = true := by decide
+theorem styleDefaults_recognised : Gen.styleDefaults.all Gen.DefaultRow.ok = true := by decide
+
+/-- the cells document validation accepts are exactly the 17 cells the theorems and the generator range over -/
+theorem styleCells_eq_legalCells :
+    legalCells.all (fun c => Gen.styleCells.contains (.cell c)) = true ∧
+    Gen.styleCells.all (fun r => match r with | .cell c => legalCells.contains c | .unrecognised _ => false) = true := by
+  decide
+
+/-- SerializationMethod's defaults are the model's for all four locations, nothing else is listed, and every
+default is a legal cell -/
+theorem styleDefaults_eq_model :
+    [Loc.path, .query, .header, .cookie].all (fun l =>
+      Gen.styleDefaults.contains (.dflt l (defaultMethod l).1 (defaultMethod l).2) &&
+      legalCells.contains ⟨l, (defaultMethod l).1, (defaultMethod l).2⟩) = true ∧
+    Gen.styleDefaults.all (fun r => match r with
+      | .dflt l st ex => decide (defaultMethod l = (st, ex))
+      | .unrecognised _ => false) = true := by
+  decide
 
 end KinModel.Style
